@@ -1,6 +1,6 @@
 SPECIFICATION Spec
 CONSTANTS
-  DSNames = {"empty", "tiny", "tiny2", "basic", "wrap", "long", "kids", "role250", "meta", "hist", "delta"}
+  DSNames = {"empty", "tiny", "tiny2", "basic", "wrap", "long", "kids", "role250", "meta", "hist", "delta", "wayloc"}
   Grans = {100, 1000, 1, 200, 10000}
   Offs = {0, 300}
   DGrans = {1000, 1, 500, 60000}
